@@ -425,8 +425,11 @@ impl<NumericTypes: EvalexprNumericTypes> Operator<NumericTypes> {
                 let arguments = &arguments[0];
 
                 match context.call_function(identifier, arguments) {
-                    Err(EvalexprError::FunctionIdentifierNotFound(_))
-                        if !context.are_builtin_functions_disabled() =>
+                    // Only the absence of this very identifier means that the context does not define the
+                    // function. The same error for another identifier is the failure of a function that
+                    // the context does define, which takes precedence over a builtin of the same name.
+                    Err(EvalexprError::FunctionIdentifierNotFound(not_found))
+                        if not_found == *identifier && !context.are_builtin_functions_disabled() =>
                     {
                         if let Some(builtin_function) = builtin_function(identifier) {
                             builtin_function.call(arguments)
